@@ -479,11 +479,22 @@ func growthCases() []growth {
 		sb.WriteString("p1")
 		g = append(g, growth{sb.String(), []string{"", "execstackoverflow"}})
 	}
-	// operand stack filled from the program text itself
-	for _, n := range []int{499, 500, 501, 502, 600, 5000} {
-		g = append(g, growth{strings.Repeat("1 ", n), []string{"", "stackoverflow"}})
-		g = append(g, growth{"{" + strings.Repeat("1 ", n) + "} pop", []string{"", "stackoverflow"}})
-		g = append(g, growth{"[" + strings.Repeat("1 ", n) + "] pop", []string{"", "stackoverflow"}})
+	// operand stack filled from the program text itself: executed literals,
+	// tokens collected for a procedure body (terminated or not, nested, with
+	// operands below) and for an array; around the limit either outcome is
+	// accepted, well below it the program must run, well above it must be cut off
+	for _, n := range []int{100, 400, 499, 500, 501, 502, 600, 5000, 100000} {
+		want := []string{"", "stackoverflow"}
+		if n <= 400 {
+			want = []string{""}
+		}
+		if n >= 600 {
+			want = []string{"stackoverflow"}
+		}
+		ones := strings.Repeat("1 ", n)
+		for _, form := range []string{"%s", "{%s} pop", "[%s] pop", "{%s", "[%s", "{ {%s} } pop", "1 2 {%s", "{ 1 [%s"} {
+			g = append(g, growth{fmt.Sprintf(form, ones), want})
+		}
 	}
 	return g
 }
@@ -663,6 +674,9 @@ func main() {
 					Rule: fmt.Sprintf("%d programs (every shape with <= %d statements over %d atoms and %d constructs, and with <= %d statements over a reduced alphabet of %d atoms and %d constructs, nested to depth 2, plus %d hand-shaped recursion/handler programs) x EVERY budget N in 1..ops(P)+2 (non-terminating programs: N in 1..64 and powers of two below %d); non-trivial = every case (distinct program x budget)", len(progs), size-1, len(atoms), len(constructs), size, len(smallAtoms), len(smallCons), len(handShaped), harnessCap),
 					Describe: func(i int) string { return progs[i] },
 					CrashKey: func(i int) string { return "C11:crash:budget:{" + kindOf(progs[i]) + "}" },
+					// one execution takes microseconds to milliseconds (the largest budget is
+					// harnessCap operations): no progress for 15 s is a budget that never trips
+					HangSeconds: 15,
 				},
 				{
 					Name: "budget-across-execute-calls", Items: len(small2), Body: acrossCallsBody(small2), Budget: budget,
